@@ -90,6 +90,10 @@ const COMMENTS: &[&str] = &[
     "(ünï çödé)",
     "(a, b & c. 1.5)",
     "(else\n\nwhile)",
+    "(closed on its own line\n)",
+    "(\n)",
+    "(\nnote\n\n)",
+    "(dos line\r\n)",
 ];
 
 pub fn render(p: &Program, spelling: &[u32], opts: RenderOpts) -> Rendered {
